@@ -16,20 +16,14 @@ class Topology:
     """
     if link.is_circular():
       return False
-    if not link.get("from_segment").dovetails_of_end(\
-             gfapy.invert(link.from_end.end_type)):
-      return True
-    if not link.to_segment.dovetails_of_end(gfapy.invert(link.to_end.end_type)):
-      return True
-    c = {}
-    for et in ["from", "to"]:
-      c[et] = set()
-      visited = set()
-      segend = link.get("from_segment") if et == "from" else link.to_segment
-      visited.add(segend.name)
-      visited.add(link.other_end(segend).name)
-      self.__traverse_component(segend, c[et], visited)
-    return c["from"] != c["to"]
+    # is the to-segment still reached from the from-segment without the link?
+    segment = link.from_segment
+    c = set([segment])
+    visited = set([segment.name])
+    for et in ["L", "R"]:
+      self.__traverse_component(gfapy.SegmentEnd(segment, et), c, visited,
+                                excluded = link)
+    return link.to_segment not in c
 
   def is_cut_segment(self, segment):
     """Does the removal of a segment split a connected component?
@@ -180,10 +174,12 @@ class Topology:
   def info(self, short):
     pass
 
-  def __traverse_component(self, segment_end, c, visited):
+  def __traverse_component(self, segment_end, c, visited, excluded = None):
     s = segment_end.segment
     assert(isinstance(s, gfapy.Line))
     for l in s.dovetails_of_end(segment_end.end_type):
+      if l is excluded:
+        continue
       oe = l.other_end(segment_end)
       sn = oe.name
       s = oe.segment
@@ -192,4 +188,4 @@ class Topology:
       visited.add(sn)
       c.add(s)
       for e in ["L","R"]:
-        self.__traverse_component(gfapy.SegmentEnd(s, e), c, visited)
+        self.__traverse_component(gfapy.SegmentEnd(s, e), c, visited, excluded)
